@@ -254,7 +254,8 @@ struct Op {
   std::function<std::string(const Cell& before, const Cell* operand, const Cell& after, const std::string& ret, bool nnc)> relcheck;
   bool builder;    // member of the phase-A alphabet
   bool observer;   // value-preserving
-  Op() : binary(false), builder(false), observer(false) {}
+  bool convert;    // builds an object of the other topology from the receiver; that object is checked
+  Op() : binary(false), builder(false), observer(false), convert(false) {}
 };
 static std::vector<Op> OPS;
 
@@ -545,6 +546,11 @@ static void build_ops() {
       add_op(o);
     }
   }
+  // ---- conversion between the two topologies (NNC -> C only for topologically closed values)
+  { Op o; o.name = "construct_other_topology(copy)"; o.convert = true;
+    o.ok = [](const Ctx& x) { return !x.nnc || ref::is_empty(CL[x.cls]) || ref::subset(ref::closure(CL[x.cls]), CL[x.cls]); };
+    o.refv = [](const Cell& c, const Cell*, bool) { return c; };
+    add_op(o); }
   // ---- binary
   struct Bin { const char* n; std::function<std::string(Polyhedron&, const Polyhedron&)> f; std::function<Cell(const Cell&, const Cell&, bool)> r; };
   std::vector<Bin> bins = {
@@ -926,6 +932,35 @@ static void build_queries() {
       }
     }
   }
+  // congruences() / minimized_congruences(): the equalities defining the affine hull
+  for (int mini = 0; mini < 2; ++mini) {
+    Query q; q.name = mini ? "minimized_congruences()" : "congruences()"; q.binary = false; q.ok = [](const Ctx&) { return true; };
+    q.run = [mini](Polyhedron& p, const Polyhedron*) {
+      PPL::Congruence_System cgs = mini ? p.minimized_congruences() : p.congruences();
+      int n = p.space_dimension();
+      Cell e(n);
+      for (PPL::Congruence_System::const_iterator i = cgs.begin(); i != cgs.end(); ++i) {
+        Row r; r.a.assign(n, Q(0));
+        for (int j = 0; j < n && j < (int)i->space_dimension(); ++j) r.a[j] = to_q(i->coefficient(Variable(j)));
+        r.b = to_q(i->inhomogeneous_term());
+        if (i->is_proper_congruence()) {
+          // a proper congruence can only be trivial (0 = b mod m)
+          bool zero = ref::is_zero_vec(r.a);
+          if (!zero) return std::string("PROPER-NONTRIVIAL-CONGRUENCE");
+          Q t = r.b / to_q(i->modulus());
+          if (t.get_den() != 1) return std::string("bot/") + std::to_string(n);
+          continue;
+        }
+        r.k = ref::EQ; e.rows.push_back(r);
+      }
+      return ref::canon_closed(e); };
+    q.expect = [](const Cell& v, const Cell*, bool) {
+      if (ref::is_empty(v)) return std::string("bot/") + std::to_string(v.n);
+      Cell c = ref::normalized(v), h(v.n);
+      for (size_t i = 0; i < c.rows.size(); ++i) { Row r = c.rows[i]; r.k = ref::EQ; if (ref::implies(c, r)) h.rows.push_back(r); }
+      return ref::canon_closed(h); };
+    QS.push_back(q);
+  }
   // binary predicates
   struct BP { const char* n; std::function<bool(Polyhedron&, const Polyhedron&)> f; std::function<bool(const Cell&, const Cell&)> r; };
   std::vector<BP> bps = {
@@ -1085,6 +1120,23 @@ static void run_ops_on(int s, long long& sub, long long sub_start) {
       PH p(clone(*st.ph));
       PH oc; if (o >= 0) oc.reset(clone(*ST[o].ph));
       std::string ret; bool threw = false;
+      if (op.convert) {
+        std::string site = "Polyhedron::" + std::string(st.nnc ? "C_Polyhedron(const NNC_Polyhedron&)" : "NNC_Polyhedron(const C_Polyhedron&)");
+        std::string inj = input_json(s, op.name, -1);
+        try {
+          PH q;
+          if (st.nnc) q.reset(new C_Polyhedron(static_cast<const NNC_Polyhedron&>(*p)));
+          else q.reset(new NNC_Polyhedron(static_cast<const C_Polyhedron&>(*p)));
+          count(CNT_TRANS);
+          check_value(*q, st.cls, site, inj);
+          // the source keeps its value
+          Cell pc = cell_of(p->constraints(), st.dim); int c; { RefGuard guard; c = classify_cons(pc, st.cls); }
+          if (c != st.cls && violcap().admit(site + "|src")) report_violation(site, "const-arg-changed", "none", inj, cellstr(c), cellstr(st.cls));
+        } catch (const std::exception& ex) {
+          if (violcap().admit(site + "|exc")) report_violation(site, "unexpected-exception", "none", inj, ex.what(), "no exception");
+        }
+        continue;
+      }
       try { ProfT pt("ppl:apply"); ret = op.apply(*p, oc.get()); }
       catch (const std::exception& ex) { threw = true; ret = std::string("exception:") + ex.what(); }
       count(CNT_TRANS);
